@@ -55,7 +55,7 @@ MED_PATHS = ['newarray', 'newstruct', 'nested', 'slice', 'unaligned', 'forms',
              'apiptrarg', 'ffiptrarg', 'abiptrarg',
              'apistructarg', 'ffistructarg', 'abistructarg',
              'apivararg', 'abivararg',
-             'callback_onerror', 'callback_abi', 'externpy_onerror']
+             'callback_onerror', 'callback_abi', 'externpy_onerror', 'apidots']
 
 # (kind, how) of the call-argument paths
 CALL_PATHS = {
@@ -130,6 +130,87 @@ extern "Python" %(T)s ep_%(N)s(void);
                       + '\n'.join(src), 'dir': d}
 
 
+# 'typedef int... T': the generated module finds size and signedness with the C compiler;
+# stores through T must then have exactly the range of the real type (API mode only)
+DOTS = {'unsigned char': 'd_u8', 'signed char': 'd_s8', 'unsigned short': 'd_u16', 'short': 'd_s16',
+        'unsigned int': 'd_u32', 'int': 'd_s32', 'unsigned long long': 'd_u64', 'long': 'd_s64'}
+
+
+def dots_spec(d):
+    cdef, src = [], []
+    for T, D in sorted(DOTS.items()):
+        cdef.append('typedef int... %(D)s; %(D)s g_%(D)s; %(D)s get_%(D)s(void); '
+                    'struct sd_%(D)s { char pad; %(D)s f; char pad2; }; '
+                    'long long fld_%(D)s(struct sd_%(D)s *p);' % {'D': D})
+        src.append('typedef %(T)s %(D)s; %(D)s g_%(D)s; %(D)s get_%(D)s(void) { return g_%(D)s; } '
+                   'struct sd_%(D)s { char pad; %(D)s f; char pad2; }; '
+                   'long long fld_%(D)s(struct sd_%(D)s *p) { return (long long)p->f; }'
+                   % {'T': T, 'D': D})
+    return {'name': '_c03dots', 'kind': 'api', 'cdef': '\n'.join(cdef), 'source': '\n'.join(src),
+            'dir': d}
+
+
+def dots_case(st, case):
+    """path 'apidots': T is reached through its 'typedef int...' name"""
+    ffi, lib = st['dffi'], st['dlib']
+    T, size, signed = case['T'], case['size'], case['signed']
+    D = DOTS.get(T)
+    bad, counts = [], {'accepted': 0, 'rejected': 0}
+    if D is None:
+        return {'bad': bad, 'counts': {'apidots_type_without_dots_typedef': 1}}
+    lo, hi = trange(T, size, signed)
+    mask = (1 << (8 * size)) - 1
+    if ffi.sizeof(D) != size:
+        bad.append(('dots-typedef-size', 'sizeof(%s) = %d, the C type %s has %d' %
+                    (D, ffi.sizeof(D), T, size), case['vals'][0]))
+    p = ffi.new(D + ' *')
+    s = ffi.new('struct sd_%s *' % D)
+    for i, v in enumerate(case['vals']):
+        ok = lo <= v <= hi
+        form = i % 4
+        before = (p[0], s.f, getattr(lib, 'g_' + D))
+        try:
+            if form == 0:
+                q = ffi.new(D + ' *', v)
+                got, cgot = q[0], None
+            elif form == 1:
+                p[0] = v
+                got, cgot = p[0], None
+            elif form == 2:
+                s.f = v
+                got, cgot = s.f, getattr(lib, 'fld_' + D)(s)
+            else:
+                setattr(lib, 'g_' + D, v)
+                got, cgot = getattr(lib, 'g_' + D), getattr(lib, 'get_' + D)()
+            raised = None
+        except OverflowError:
+            raised = 'OverflowError'
+        except Exception as e:
+            raised = type(e).__name__
+        fname = ('new', 'item', 'field', 'global')[form]
+        counts['apidots_' + fname] = counts.get('apidots_' + fname, 0) + 1
+        if ok:
+            counts['accepted'] += 1
+            if raised:
+                bad.append(('inrange-rejected', '%s (typedef int... for %s) via %s: in-range %d '
+                            'raised %s' % (D, T, fname, v, raised), v))
+            elif got != v or (cgot is not None and (cgot & mask) != (v & mask)):
+                bad.append(('readback', '%s (typedef int... for %s) via %s: stored %d, read %r, C '
+                            'reads %r' % (D, T, fname, v, got, cgot), v))
+        else:
+            counts['rejected'] += 1
+            if raised is None:
+                bad.append(('outofrange-accepted', '%s (typedef int... for %s) via %s: out-of-range '
+                            '%d was accepted (read back %r)' % (D, T, fname, v, got), v))
+            elif raised != 'OverflowError':
+                bad.append(('wrong-exception', '%s via %s: out-of-range %d raised %s' %
+                            (D, fname, v, raised), v))
+            elif (p[0], s.f, getattr(lib, 'g_' + D)) != before:
+                bad.append(('rejected-store-changed-memory', '%s via %s: rejected %d changed the '
+                            'target' % (D, fname, v), v))
+    return {'bad': bad, 'counts': counts}
+
+
 def abi_cdef(cdef):
     import re
     return re.sub(r'extern "Python"[^;]*;', '', cdef)
@@ -194,11 +275,14 @@ def build_all(ctx):
     vres = {}
     th = threading.Thread(target=lambda: vres.update(build_verify(ctx, os.path.join(d, 'verify'))))
     th.start()
-    res = modbuild.build_modules(ctx, [spec, ool_spec(d, spec['cdef'])])
+    res = modbuild.build_modules(ctx, [spec, ool_spec(d, spec['cdef']), dots_spec(d)])
     th.join()
     if not res['_c03mod']['ok']:
         raise core.Inconclusive('helper module build failed: ' + res['_c03mod']['error'] +
                                 res['_c03mod'].get('log', ''))
+    if not res['_c03dots']['ok']:
+        raise core.Inconclusive("'typedef int...' module build failed: " + res['_c03dots']['error'] +
+                                res['_c03dots'].get('log', '')[-800:])
     if not res['_c03ool']['ok']:
         raise core.Inconclusive('out-of-line ABI module build failed: ' + res['_c03ool']['error'])
     if not vres.get('ok'):
@@ -270,7 +354,9 @@ def child_setup(setup, wd):
         vlib = ver.load_library()
     sys.stderr = open(os.devnull, 'w')
     sys.unraisablehook = lambda *a: None
-    return {'ffi': _c03mod.ffi, 'lib': _c03mod.lib, 'affi': affi, 'alib': alib,
+    import _c03dots
+    return {'dffi': _c03dots.ffi, 'dlib': _c03dots.lib,
+            'ffi': _c03mod.ffi, 'lib': _c03mod.lib, 'affi': affi, 'alib': alib,
             'offi': _c03ool.ffi, 'olib': olib, 'vffi': vffi, 'vlib': vlib, 'nested': {}}
 
 
@@ -302,6 +388,8 @@ def child_case(st, case):
     ffi, lib, affi, alib = st['ffi'], st['lib'], st['affi'], st['alib']
     offi, olib, vffi, vlib = st['offi'], st['olib'], st['vffi'], st['vlib']
     T, path, size, signed = case['T'], case['path'], case['size'], case['signed']
+    if path == 'apidots':
+        return dots_case(st, case)
     N = ident(T)
     lo, hi = trange(T, size, signed)
     isbool = (T == '_Bool')
